@@ -282,4 +282,38 @@ def build ():
   add("ip6_mld", e(bytes.fromhex("333300000016"), M1, 0x86dd, ipv6(LL6, MC6, 0,
       ext_hbh(58, b"\x05\x02\0\0\x01\0") + icmp6(LL6, MC6, 143, 0,
       b"\0\0\0\1" + b"\x04\0\0\0" + MC6), hlim=1)))
+  # --- frames behind validity gates (ICMPv6 is only looked into when its
+  #     checksum is right; MPTCP options only inside a well-formed TCP header)
+  q6 = ipv6(A6, B6, 17, udp6(A6, B6, 1, 2, b"quoted"))
+  add("ip6_ra_unknown_opts", e(bytes.fromhex("333300000001"), M2, 0x86dd,
+      ipv6(LL6, MC6, 58, icmp6(LL6, MC6, 134, 0,
+           struct.pack("!BBHLL", 64, 0, 1800, 0, 0) + nd_opt(1, M2) +
+           nd_opt(25, b"\0\0" + struct.pack("!L", 600) + A6) +
+           nd_opt(24, struct.pack("!BBL", 64, 0x08, 3600) + A6[:8]) +
+           nd_opt(14, b"nonce!")), hlim=255)))
+  add("ip6_ns_nonce", e(bytes.fromhex("3333ff000002"), M1, 0x86dd, ipv6(A6, MC6, 58,
+      icmp6(A6, MC6, 135, 0, b"\0\0\0\0" + B6 + nd_opt(14, b"NONCE!")), hlim=255)))
+  add("ip6_too_big", e(M1, M2, 0x86dd, ipv6(B6, A6, 58, icmp6(B6, A6, 2, 0,
+      struct.pack("!L", 1280) + q6))))
+  add("ip6_time_exceeded", e(M1, M2, 0x86dd, ipv6(B6, A6, 58, icmp6(B6, A6, 3, 0,
+      b"\0\0\0\0" + q6))))
+  add("ip6_unreach_short", e(M1, M2, 0x86dd, ipv6(B6, A6, 58, icmp6(B6, A6, 1, 0,
+      b"\0\0"))))
+  add("ip6_unreach_bare", e(M1, M2, 0x86dd, ipv6(B6, A6, 58, icmp6(B6, A6, 1, 3,
+      b"\0\0\0\0"))))
+  add("ip6_param_problem", e(M1, M2, 0x86dd, ipv6(B6, A6, 58, icmp6(B6, A6, 4, 1,
+      struct.pack("!L", 40) + q6))))
+  add("ip6_too_big_short", e(M1, M2, 0x86dd, ipv6(B6, A6, 58, icmp6(B6, A6, 2, 0,
+      b"\0\0"))))
+  mp_capable = b"\x1e\x0c\x00\x81" + b"\x11" * 8
+  mp_join = b"\x1e\x0c\x10\x01" + b"\x22" * 8
+  mp_dss = b"\x1e\x14\x20\x05" + struct.pack("!LLLHH", 7, 8, 9, 10, 0)
+  mp_dss64 = b"\x1e\x1c\x20\x0f" + struct.pack("!QQLHH", 7, 8, 9, 10, 0)
+  mp_unknown = b"\x1e\x04\xf0\x00"
+  for nm, opts in (("capable", mp_capable), ("join", mp_join), ("dss", mp_dss),
+                   ("dss64", mp_dss64), ("unknown_x10", mp_unknown * 10),
+                   ("unknown_1", mp_unknown), ("add_addr", b"\x1e\x08\x34\x01\x0a\0\0\x01"),
+                   ("fastclose", b"\x1e\x0c\x70\x00" + b"\x33" * 8)):
+    add("tcp_mptcp_" + nm, e(M2, M1, 0x0800, ip(IP1, IP2, 6, F.tcp(
+        40000, 443, b"mp", options=opts, src=IP1, dst=IP2))))
   return C
